@@ -122,6 +122,11 @@ pub mod l1 {
     #[verifier::external_body]
     pub fn vsum(v: Vec<f64>) -> (r: f64) ensures rv(r) == rsum(v@, v@.len() as int) { v.iter().sum() }
 
+    // `ITER.product::<f64>()`: std's `impl Product<f64>` is an in-order fold from 1.0 (assumed contract on std, as for sum)
+    pub open spec fn rprod(x: Seq<f64>, k: int) -> real decreases k { if k <= 0 { 1real } else { rprod(x, k - 1) * rv(x[k - 1]) } }
+    #[verifier::external_body]
+    pub fn vprod(v: Vec<f64>) -> (r: f64) ensures rv(r) == rprod(v@, v@.len() as int) { v.iter().product() }
+
     // constants (rule R9)
     #[verifier::external_body]
     pub fn c_pi() -> (r: f64) ensures rv(r) == r_pi() { core::f64::consts::PI }
